@@ -139,6 +139,25 @@ class C03(CheckBase):
                 raise Violation("C03|%s|closed-session-handle-still-valid" % action[0], {"action": action, "handle": h})
         # all sessions of one token agree (follows from obs == pred, stated separately for the reader)
         ctx.count("infos_compared", len(obs))
+        # hidden login state of tokens without any session: what would a session opened NOW report?  (look-ahead in a
+        # throw-away snapshot; "closing the last session returns the token to the public state" is only observable this way)
+        slots = ctx.world["slots"]
+        for t in ("A", "B", "C"):
+            tk = m.tok[t]
+            if not tk.init or any(s[1] == t for s in m.sess) or (t == "C" and not self.third):
+                continue
+            d0 = ctx.sh.depth
+            ctx.sh.snap(copy=False)
+            try:
+                r = ctx.p.OpenSession(slots[t], W.RW)
+                if r["rv"] == 0:
+                    info = ctx.p.GetSessionInfo(r["h"])
+                    if info.get("state") != expected_state(tk.login, 1):
+                        raise Violation("C03|%s|%s|fresh-session-reports-stale-login" % (action[0], what),
+                                        {"action": action, "token": t, "reported_state": info.get("state"), "model_login": tk.login})
+                    ctx.count("fresh_session_lookahead")
+            finally:
+                ctx.sh.unwind(d0)
 
     # ---- step: execute + oracle
     def step(self, ctx, m, a):
